@@ -116,22 +116,31 @@ Proof.
       cbn [sane]. split; [exact I|split; constructor].
 Qed.
 
-(** the part of the codec universe covered by the round-trip theorem *)
+(** the part of the codec universe covered by the round-trip theorem: all of it
+    except the JSON / BigQuery codecs, slices over pointer / null / BQ elements
+    (findings D24, nil elements) and the repeated forms outside struct fields (D12) *)
+Definition topb (c : codec) : bool := match c with CSliceProto _ | CMapProto _ _ => false | _ => true end.
 Fixpoint frag (c : codec) : bool :=
   match c with
   | CBool | CInt _ | CUint _ | CFlat _ | CF32 | CF64 | CString | CBytes | CTime _ => true
-  | CNull c' | CPtr c' => frag c'
+  | CNull c' | CPtr c' => frag c' && topb c'
   | CStruct _ _ fs => forallb (fun f => frag (f_codec f)) fs
   | CSliceVar c' => match c' with CBool | CInt _ | CUint _ | CFlat _ => true | _ => false end
   | CSliceFix c' => match c' with CF32 | CF64 => true | _ => false end
-  | CSliceLen c' => frag c'
+  | CSliceLen c' | CSliceProto c' => frag c' && topb c'
+  | CMap k v | CMapProto k v => frag k && frag v && topb k && topb v
   | _ => false
   end.
+
+Lemma topb_top c : topb c = true -> top_ok c.
+Proof. destruct c; cbn; intros H; try discriminate; exact I. Qed.
 
 Theorem sane_frag_rt : forall c, sane c -> frag c = true -> rt_ok c.
 Proof.
   induction c as [ |b|b|b| | | | |compat| |c IH|c IH|nm n fs IH|c IH|c IH|c IH|c IH|kc vc IHk IHv|kc vc IHk IHv| | | ]
     using codec_ind'; intros Hs Hf; cbn [sane frag rt_ok] in *; try discriminate; auto.
+  - apply andb_true_iff in Hf. destruct Hf as [Hf Ht]. split; [apply IH; assumption|apply topb_top; exact Ht].
+  - apply andb_true_iff in Hf. destruct Hf as [Hf Ht]. split; [apply IH; assumption|apply topb_top; exact Ht].
   - destruct Hs as (Hall & H1 & H2). split; [|split; assumption]. clear H1 H2.
     induction IH as [|f r Hf0 Hr IHr]; [exact I|].
     cbn [forallb] in Hf. apply andb_true_iff in Hf. destruct Hf as [Hf1 Hf2].
@@ -139,16 +148,28 @@ Proof.
     split; [apply Hf0; assumption|]. split; [unfold max_sane_index in B; lia|exact C].
   - destruct Hs as [Hs Hw]. destruct c; try discriminate; cbn [plain_varint sane] in *; auto.
   - destruct c; try discriminate; exact I.
-  - destruct Hs as [Hs Hw]. split; [apply IH; assumption|exact Hw].
+  - destruct Hs as [Hs Hw]. apply andb_true_iff in Hf. destruct Hf as [Hf Ht].
+    split; [apply IH; assumption|]. split; [exact Hw|apply topb_top; exact Ht].
+  - destruct Hs as [Hs Hw]. apply andb_true_iff in Hf. destruct Hf as [Hf Ht].
+    split; [apply IH; assumption|]. split; [exact Hw|apply topb_top; exact Ht].
+  - destruct Hs as [Hsk Hsv]. repeat (apply andb_true_iff in Hf; destruct Hf as [Hf ?]).
+    repeat split; auto using topb_top.
+  - destruct Hs as [Hsk Hsv]. repeat (apply andb_true_iff in Hf; destruct Hf as [Hf ?]).
+    repeat split; auto using topb_top.
 Qed.
 
 (** C08: what CodecForType accepts obeys the other properties - the codec it
-    returns round-trips (on the fragment covered by C01's theorem) and decodes
+    returns round-trips (on the fragment covered by C01's theorem: on its own
+    when it is not a repeated form, and as a struct field always) and decodes
     arbitrary bytes totally (when no recursive type was cut off by the model's
     unfolding limit) *)
 Theorem accepted_roundtrips : forall C E fuel t tag c,
-  codec_for C E fuel t tag = Ok c -> frag c = true -> RTc c.
-Proof. intros C E fuel t tag c H Hf. apply roundtrip. apply sane_frag_rt; [eapply codec_for_sane; exact H|exact Hf]. Qed.
+  codec_for C E fuel t tag = Ok c -> frag c = true -> (topb c = true -> RTc c) /\ FRT c.
+Proof.
+  intros C E fuel t tag c H Hf.
+  destruct (roundtrip_gen c (sane_frag_rt c (codec_for_sane _ _ _ _ _ _ H) Hf)) as [A B].
+  split; [intros Ht; apply A; apply topb_top; exact Ht|exact B].
+Qed.
 
 (** no recursive type was cut off by the model's unfolding limit *)
 Fixpoint bottom_free (c : codec) : bool :=
